@@ -6,6 +6,7 @@ import (
 	"bytes"
 	"fmt"
 	"io"
+	"strings"
 	"testing"
 
 	"github.com/datastax/go-cassandra-native-protocol/frame"
@@ -228,12 +229,55 @@ func mutateBytes(rt *rapid.T, b []byte, hdr int) []byte {
 	return out
 }
 
+// c05ReencodeVerdict runs in the worker: decode -> encode -> decode on arbitrary bytes.
+func c05ReencodeVerdict(args []string, in []byte) string {
+	comp := compNone
+	switch args[0] {
+	case "lz4":
+		comp = compLz4
+	case "snappy":
+		comp = compSnappy
+	}
+	codec, spy := newSpyCodec(comp)
+	var G *frame.Frame
+	var err error
+	if msg := recovered(func() { G, err = codec.DecodeFrame(bytes.NewReader(in)) }); msg != "" {
+		return "SKIP: decode-panicked(C04's business)"
+	}
+	if err != nil {
+		return "SKIP: undecodable"
+	}
+	G0 := G.DeepCopy()
+	var b2 []byte
+	var eerr error
+	if msg := recovered(func() { b2, eerr = encodeFrame(codec, G) }); msg != "" {
+		return fmt.Sprintf("FAIL: re-encoding a decoded frame panicked: %s", msg)
+	}
+	if eerr != nil {
+		return "SKIP: encode-error(not judged)"
+	}
+	if G.Header.Flags.Contains(primitive.HeaderFlagCompressed) && knownLz4("", spy) {
+		return "SKIP: known:DEP-lz4-offset-wrap-65536"
+	}
+	G2, err := codec.DecodeFrame(bytes.NewReader(b2))
+	if err != nil {
+		return fmt.Sprintf("FAIL: bytes decoded to a frame, the frame re-encoded, but the result does not decode: %v\nfirst decode: %s", err, canon.Render(G0))
+	}
+	G0.Header.BodyLength = G2.Header.BodyLength // the computed length may legitimately differ (map order under compression, trailing bytes)
+	if d := canon.Diff(G0, G2); d != "" {
+		return fmt.Sprintf("FAIL: decode -> encode -> decode is not stable: %s\nfirst decode: %s", d, canon.Render(G0))
+	}
+	return "OK " + canon.Render(G0)
+}
+
+func init() { workerHandlers["c05reencode"] = c05ReencodeVerdict }
+
 func c05Reencode(rt *rapid.T) {
 	rec := stats.For("C05")
 	v := gen.Version(rt)
 	comp := drawComp(rt, v)
 	fc := gen.Frame(rt, v, comp != compNone, genOpts())
-	codec, spy := newSpyCodec(comp)
+	codec := newRawCodec(comp)
 	enc, err := encodeFrame(codec, fc.Frame)
 	if err != nil {
 		rt.Fatalf("EncodeFrame: %v", err)
@@ -243,42 +287,30 @@ func c05Reencode(rt *rapid.T) {
 	if mutated {
 		in = mutateBytes(rt, enc, hdrLen(v))
 	}
-	var G *frame.Frame
-	if msg := recovered(func() { G, err = codec.DecodeFrame(bytes.NewReader(in)) }); msg != "" {
-		rec.Case(false, 0, nil, "reencode:decode-panicked(C04's business)")
-		return
+	verdict := isolated("c05reencode", []string{comp.String()}, in)
+	switch {
+	case strings.HasPrefix(verdict, "FAIL:"):
+		rt.Fatalf("%s\ncomp=%s input(%d bytes) %x", verdict, comp, len(in), clipBytes(in))
+	case strings.HasPrefix(verdict, "SKIP: known:"):
+		rec.Excluded(strings.TrimPrefix(verdict, "SKIP: known:"))
+	case strings.HasPrefix(verdict, "SKIP:"):
+		cls := firstLine(strings.TrimPrefix(verdict, "SKIP: "))
+		if strings.HasPrefix(cls, "resource exhaustion") {
+			cls = "resource-exhaustion-in-worker(not judged)"
+		}
+		rec.Case(false, 0, nil, "reencode:"+cls)
+	default:
+		rec.Case(mutated && !bytes.Equal(in, enc), stats.Hash(in), func() string {
+			return fmt.Sprintf("re-encode v=%d comp=%s input(%d bytes)=%x -> %s", v, comp, len(in), clipBytes(in), clip200(verdict))
+		}, "reencode:stable", fmt.Sprintf("mutated:%v", mutated))
 	}
-	if err != nil {
-		rec.Case(false, 0, nil, "reencode:undecodable")
-		return
+}
+
+func clip200(s string) string {
+	if len(s) > 600 {
+		return s[:600] + "..."
 	}
-	G0 := G.DeepCopy()
-	if spy != nil {
-		spy.in, spy.out = nil, nil
-	}
-	var b2 []byte
-	var eerr error
-	if msg := recovered(func() { b2, eerr = encodeFrame(codec, G) }); msg != "" {
-		rt.Fatalf("re-encoding a decoded frame panicked: %s\ninput %x", msg, clipBytes(in))
-	}
-	if eerr != nil {
-		rec.Case(false, 0, nil, "reencode:encode-error(not judged)")
-		return
-	}
-	if G.Header.Flags.Contains(primitive.HeaderFlagCompressed) && knownLz4("C05", spy) {
-		return
-	}
-	G2, err := codec.DecodeFrame(bytes.NewReader(b2))
-	if err != nil {
-		rt.Fatalf("bytes decoded to a frame, the frame re-encoded, but the result does not decode: %v\nfirst decode: %s\ninput %x", err, canon.Render(G0), clipBytes(in))
-	}
-	G0.Header.BodyLength = G2.Header.BodyLength // the computed length may legitimately differ (map order under compression, trailing bytes)
-	if d := canon.Diff(G0, G2); d != "" {
-		rt.Fatalf("decode -> encode -> decode is not stable: %s\nfirst decode: %s\ninput %x", d, canon.Render(G0), clipBytes(in))
-	}
-	rec.Case(mutated && !bytes.Equal(in, enc), stats.Hash(in), func() string {
-		return fmt.Sprintf("re-encode v=%d comp=%s input(%d bytes)=%x -> %s", v, comp, len(in), clipBytes(in), canon.Render(G0))
-	}, "reencode:stable", fmt.Sprintf("mutated:%v", mutated))
+	return s
 }
 
 func clipBytes(b []byte) []byte {
